@@ -116,6 +116,46 @@ theorem all_legal_partial (v : Version) (op : Op) (rs : List Nat)
   case vendorId.legacy | vendorId.modern => apply read1_all <;> legal_list
   case drop.legacy | drop.modern => legal_list
 
+/-- the access is one 32-bit load or store of a field of `VirtIOHeader` -/
+structure IsField (a : Access) : Prop where
+  field : ∃ r x, a = wr r x ∨ a = rd r x
+
+theorem isField_wr (r : Reg) (x : Nat) : IsField (wr r x) := ⟨r, x, Or.inl rfl⟩
+theorem isField_rd (r : Reg) (x : Nat) : IsField (rd r x) := ⟨r, x, Or.inr rfl⟩
+
+macro "field_list" : tactic => `(tactic| (
+  (try simp only [List.forall_mem_cons, List.forall_mem_append, List.forall_mem_nil, List.not_mem_nil,
+    List.mem_nil_iff, false_imp_iff, implies_true, and_true, modernClear])
+  <;> and_intros
+  <;> first
+    | exact isField_wr _ _
+    | exact isField_rd _ _
+    | (intro x; exact isField_rd _ _)
+    | (apply pollReady_all; intro x; exact isField_rd _ _)
+    | trivial))
+
+/-- every access of every operation on either interface — no exception — is a single load or
+store of a header field -/
+theorem all_field_accesses (v : Version) (op : Op) (rs : List Nat) :
+    ∀ a ∈ (run v op rs).trace, IsField a := by
+  cases op <;> cases v <;> simp only [run]
+  case readFeatures.legacy | readFeatures.modern => split <;> field_list
+  case queueSet.legacy => split <;> field_list
+  case queueUnset.modern => split <;> field_list
+  case ackInterrupt.legacy | ackInterrupt.modern =>
+    apply read1_all <;> (try (intro x; split)) <;> field_list
+  case maxQueueSize.legacy | maxQueueSize.modern | getStatus.legacy | getStatus.modern
+      | queueUsed.legacy | queueUsed.modern | readGeneration.legacy | readGeneration.modern
+      | vendorId.legacy | vendorId.modern => apply read1_all <;> field_list
+  all_goals field_list
+
+/-- … hence 32 bits wide and at an offset of the register block, below the configuration space -/
+theorem all_width32 (v : Version) (op : Op) (rs : List Nat) :
+    ∀ a ∈ (run v op rs).trace, a.width = 4 ∧ a.off % 4 = 0 ∧ a.off < CONFIG_SPACE_OFFSET := by
+  intro a ha
+  obtain ⟨r, x, h | h⟩ := (all_field_accesses v op rs a ha).field <;> subst h <;>
+    refine ⟨rfl, ?_, ?_⟩ <;> simp only [wr, rd] <;> cases r <;> decide
+
 /-! ## selector discipline, address split -/
 
 theorem lo_hi_recombine (x : Nat) (h : x < 2 ^ 64) :
